@@ -12,6 +12,7 @@ import (
 	"os"
 	"os/exec"
 	"path/filepath"
+	"regexp"
 	"runtime"
 	"sort"
 	"strconv"
@@ -60,6 +61,7 @@ type JobResult struct {
 	Err   string          `json:"err,omitempty"`   // engine error (never a verdict)
 	Crash string          `json:"crash,omitempty"` // worker process died while running this job
 	Bye   bool            `json:"bye,omitempty"`   // worker recycles itself after this job
+	Stall string          `json:"stall,omitempty"` // the world stopped for good outside the scheduler's control (see stallWatch)
 	Out   json.RawMessage `json:"out,omitempty"`
 }
 
@@ -102,6 +104,7 @@ func TestWorker(t *testing.T) {
 			continue
 		}
 		res := JobResult{ID: j.ID}
+		stopWatch := stallWatch(j, w)
 		h := jobHandlers[j.Kind]
 		if h == nil {
 			res.Err = "unknown job kind " + j.Kind
@@ -122,6 +125,7 @@ func TestWorker(t *testing.T) {
 				}
 			}()
 		}
+		stopWatch()
 		// recycle: leaked goroutines of dead bubbles accumulate in this process
 		res.Bye = n+1 >= maxJobs || workerMustRecycle
 		b := mustJSON(res)
@@ -133,6 +137,81 @@ func TestWorker(t *testing.T) {
 		}
 	}
 }
+
+// stallWatch: a world can stop for good in a way the gate scheduler does not see - a goroutine of the code under test
+// blocks in an operation on a channel (or lock) that was created outside the world, e.g. at package level. The
+// virtual clock then never advances again and the job would sit there until the coordinator's time-out. A watchdog
+// outside the world notices that the process has used no CPU for stallAfter of real time while the job is unfinished,
+// reads the goroutine dump and ends the worker with a result that names the blocked goroutine: a goroutine of the
+// world with a chf frame, blocked for minutes in a channel / lock operation the world does not own, while the whole
+// process is idle, can only be woken by a timer - and every timer of chf is far shorter than the wait.
+// Anything else that stalls is reported as an engine error, never as a verdict.
+const stallAfter = 150 * time.Second
+
+var stallHdr = regexp.MustCompile(`^goroutine \d+ \[([^\]]*)\]:`)
+
+func cpuSeconds() float64 {
+	var ru syscall.Rusage
+	syscall.Getrusage(syscall.RUSAGE_SELF, &ru)
+	return float64(ru.Utime.Sec+ru.Stime.Sec) + float64(ru.Utime.Usec+ru.Stime.Usec)/1e6
+}
+
+func stallWatch(j Job, w *bufio.Writer) (stop func()) {
+	done := make(chan struct{})
+	go func() {
+		last, since := cpuSeconds(), time.Now()
+		for {
+			select {
+			case <-done:
+				return
+			case <-time.After(5 * time.Second):
+			}
+			if c := cpuSeconds(); c-last > 0.25 {
+				last, since = c, time.Now()
+				continue
+			}
+			if time.Since(since) < stallAfter {
+				continue
+			}
+			buf := make([]byte, 8<<20)
+			buf = buf[:runtime.Stack(buf, true)]
+			res := JobResult{ID: j.ID, Bye: true, Err: "stalled: the worker used no CPU for " + stallAfter.String() + " with the job unfinished (no verdict)"}
+			for _, g := range strings.Split(string(buf), "\n\n") {
+				m := stallHdr.FindStringSubmatch(g)
+				if m == nil || !strings.Contains(m[1], "synctest bubble") || strings.Contains(m[1], "(durable)") || !strings.Contains(m[1], "minutes") {
+					continue
+				}
+				st := m[1]
+				if !(strings.HasPrefix(st, "chan ") || strings.HasPrefix(st, "select") || strings.HasPrefix(st, "sync.") || strings.HasPrefix(st, "semacquire")) {
+					continue
+				}
+				fn := ""
+				lines := strings.Split(g, "\n")
+				for i := 1; i < len(lines); i++ {
+					l := strings.TrimSpace(lines[i])
+					if strings.HasPrefix(l, "github.com/free5gc/chf/") && !strings.Contains(l, "/zzverif") {
+						fn = strings.TrimPrefix(l[:strings.LastIndex(l, "(")], "github.com/free5gc/chf/")
+						break
+					}
+				}
+				if fn == "" {
+					continue
+				}
+				res.Stall = fmt.Sprintf("%s blocked [%s] in an operation on a channel or lock that no goroutine of the world will ever complete (the whole process has been idle since): %s", fn, st, oneLine(g, 900))
+				res.Err = ""
+				break
+			}
+			w.Write(mustJSON(res))
+			w.WriteByte('\n')
+			w.Flush()
+			os.Exit(0)
+		}
+	}()
+	return func() { close(done) }
+}
+
+// curReport: the report of the check this coordinator process runs (stalled jobs are classified centrally)
+var curReport *Report
 
 // ---------------------------------------------------------------------------------------
 // worker pool (coordinator side)
@@ -309,6 +388,16 @@ func (p *Pool) Run(initial []Job, onResult func(j Job, r JobResult) []Job) {
 					if e := json.Unmarshal(line, &r); e != nil {
 						r = JobResult{ID: j.ID, Err: "bad result line: " + e.Error()}
 					}
+					if r.Stall != "" {
+						if rep := curReport; rep != nil {
+							fn := r.Stall
+							if i := strings.Index(fn, " "); i > 0 {
+								fn = fn[:i]
+							}
+							rep.Finding("blocked-forever/outside-the-scheduler/"+fn, fmt.Sprintf("job %s %s: %s", j.Kind, oneLine(string(j.Args), 300), r.Stall), map[string]any{"job": json.RawMessage(j.Args), "kind": j.Kind})
+						}
+						r.Err = "stalled world (reported as blocked-forever/outside-the-scheduler)"
+					}
 					if r.Bye {
 						w.stop()
 						w = nil
@@ -436,6 +525,12 @@ type Violation struct {
 }
 
 func NewReport(prop string) *Report {
+	r := newReport(prop)
+	curReport = r
+	return r
+}
+
+func newReport(prop string) *Report {
 	return &Report{Prop: prop, Tier: envOr("VTIER", "quick"), Seed: envInt("VERIF_SEED", 0), start: time.Now(),
 		known: loadKnown(prop), knownHits: map[string]int{}, knownFirst: map[string]string{}, violSeen: map[string]bool{},
 		Cov: map[string]any{}}
@@ -731,8 +826,21 @@ func replayMain(prop, path string) int {
 		fmt.Fprintln(os.Stderr, "replay file has neither ops nor job")
 		return 2
 	}
+	if job.Kind == "race" {
+		// a free-running pass finding: re-run the scenario in the -race build (a sampling side pass: it may need several runs)
+		if exe := os.Getenv("VRACE_BIN"); exe != "" {
+			if _, err := os.Stat(exe); err == nil {
+				pool, _ = racePool(exe, 1)
+			}
+		}
+	}
 	r := pool.RunAll([]Job{job})[0]
 	fmt.Printf("recorded: rule=%s %s\n", rec.Rule, oneLine(rec.Detail, 300))
+	if r.Stall != "" {
+		fmt.Printf("* rule=blocked-forever/outside-the-scheduler %s\n", oneLine(r.Stall, 600))
+		fmt.Printf("VIOLATION property=%s replay=%s\n", prop, path)
+		return 1
+	}
 	if r.Crash != "" || r.Err != "" {
 		fmt.Printf("replay: crash=%q err=%q\n", oneLine(r.Crash, 500), r.Err)
 		return 1
